@@ -245,6 +245,7 @@ type vOp struct {
 	denoms          []string
 	custom          bool
 	respelled       bool // addresses of the message are in upper-case bech32
+	gas             uint64 // explicit gas limit (0 = ample)
 	desc            string
 }
 
@@ -296,6 +297,12 @@ func (e *vestEnv) randRecipient(r *rand.Rand) string {
 
 func (e *vestEnv) genOp(r *rand.Rand, now time.Time) vOp {
 	op := e.genOp0(r, now)
+	if op.custom && (r.Intn(8) == 0 || (op.kind == "send" && r.Intn(4) == 0)) {
+		// a gas limit that may run out anywhere inside the handler: the transaction then fails
+		// as a whole (baseapp rolls it back), it never half-succeeds
+		op.gas = uint64(40000 + r.Intn(90000))
+		op.desc += fmt.Sprintf(" [gas limit %d]", op.gas)
+	}
 	if op.custom && r.Intn(8) == 0 {
 		// the same addresses in their other valid spelling (bech32 is case-insensitive as a
 		// whole): the signer and the account are the same, only the string differs
@@ -531,7 +538,11 @@ func (e *vestEnv) exec(op vOp, now time.Time) (*txOutcome, error) {
 		}
 	} else {
 		var err error
-		res, err = e.n.DeliverFee(op.signer, op.fee, op.msg)
+		if op.gas > 0 {
+			res, err = e.n.DeliverGas(op.signer, op.fee, op.gas, op.msg)
+		} else {
+			res, err = e.n.DeliverFee(op.signer, op.fee, op.msg)
+		}
 		if err != nil {
 			return nil, err
 		}
